@@ -216,7 +216,7 @@ func groups(a *hx.Args) {
 	var b strings.Builder
 	b.WriteString("---------------------------- MODULE GroupGens ----------------------------\n")
 	b.WriteString("\\* generated by `nt groups` from zkproof.BuildGroup of the tree under check: safe prime |-> <<built, G, H>>\n")
-	b.WriteString("EXTENDS TLC\n")
+	b.WriteString("EXTENDS Integers, TLC\n")
 	b.WriteString("CodeGens == (")
 	first := true
 	for P := int64(5); P < max; P += 2 {
